@@ -128,6 +128,20 @@ class Record:
         self.group: int | None = None      # index of the compound call this record belongs to, if any
 
 
+SUBJECT_BASE = 9          # key-pool index of the foreign pseudonym whose disclosures are loaded
+
+
+def _row_key(r: Record) -> str:
+    """
+    The key under which the child acknowledges the inner insert of a compound call (see crash_child.wrap_insert).
+    """
+    if r.table == "Tokens":
+        return "tok:" + r.row[1].hex() + ":" + r.row[3].hex()
+    if r.table == "Metadata":
+        return "meta:" + r.row[1].hex()
+    return "att:" + r.row[1].hex() + ":" + r.row[2].hex()
+
+
 def materialise(case: dict) -> tuple[list[dict], list[Record | None], list[int]]:
     """
     Build the real signed objects of a case. Returns (ops for the child, expected record per op, pseudonyms used).
@@ -224,10 +238,41 @@ def materialise(case: dict) -> tuple[list[dict], list[Record | None], list[int]]
                         "tp": md.token_pointer.hex(), "msig": md.signature.hex(), "json": md.serialized_json_dict.hex(),
                         "atts": atts, "span": len(sub)})
             ops.extend({"op": "nop"} for _ in sub[1:])
+            ops[first]["index_of"] = {_row_key(r): first + j for j, r in enumerate(sub)}
             for r in sub:
                 r.group = first
             records.extend(sub)
             pseuds.add(pseud)
+        elif kind == "subst":
+            # a disclosure of ANOTHER party's pseudonym (public key only) loaded through IdentityManager.substantiate:
+            # its metadata and attestations are stored (its tokens only go into the in-memory tree), one inner insert
+            # each; optionally with a damaged tail that makes the call raise after the valid part
+            _, ms, auths_of, damage = op
+            subject = SUBJECT_BASE
+            key = keypool.key(subject)
+            pk = _pub_bin(subject)
+            prev = hashlib.sha3_256(pk).digest()
+            toks, sub, metas_o, atts_o = [], [], [], []
+            for j, pad in enumerate(ms):
+                tok = Token(prev, content=prf(f"subst/{j}", 8), private_key=key)
+                prev = tok.get_hash()
+                toks.append(tok)
+                md = Metadata(tok.get_hash(), json.dumps({"name": f"disclosed{j}", "pad": "y" * pad}).encode(), private_key=key)
+                metas_o.append({"tp": md.token_pointer.hex(), "sig": md.signature.hex(), "json": md.serialized_json_dict.hex()})
+                sub.append(Record("Metadata", (pk, md.token_pointer, md.signature, md.serialized_json_dict), (0, 1), md, None))
+                for a in auths_of[j] if j < len(auths_of) else []:
+                    auth = _pub_bin(AUTH_BASE + a)
+                    att = Attestation(md.get_hash(), private_key=keypool.key(AUTH_BASE + a))
+                    atts_o.append({"auth": auth.hex(), "mp": att.metadata_pointer.hex(), "sig": att.signature.hex()})
+                    sub.append(Record("Attestations", (pk, auth, att.metadata_pointer, att.signature), (0, 1, 2), att, None))
+            first = len(ops)
+            ops.append({"op": "subst", "pk": pk.hex(), "tokens": b"".join(t.get_plaintext_signed() for t in toks).hex(),
+                        "metas": metas_o, "atts": atts_o, "damage": bool(damage)})
+            ops.extend({"op": "nop"} for _ in sub[1:])
+            ops[first]["index_of"] = {_row_key(r): first + j for j, r in enumerate(sub)}
+            for r in sub:
+                r.group = first
+            records.extend(sub)
         elif kind == "reopen":
             ops.append({"op": "reopen", "db": op[1]})
             records.append(None)
@@ -322,12 +367,15 @@ def judge(case: dict, d: str, rc: int, log: list[dict], records: list[Record | N
     from ipv8.keyvault.crypto import default_eccrypto
 
     acked = {r["i"] for r in log if r["t"] == "ack"}
-    settled = acked | {r["i"] for r in log if r["t"] in ("rej", "ret")}
+    settled = acked | {r["i"] for r in log if r["t"] in ("rej", "ret", "skip")}
     returned = acked | {r["i"] for r in log if r["t"] == "ret"}
     in_progress = 0
     while in_progress in settled:
         in_progress += 1
-    if any(i > in_progress for i in settled):
+    def group_of(i: int):
+        return records[i].group if i < len(records) and records[i] is not None else None
+    # (inside one compound call the inner inserts may return in any order)
+    if any(i > in_progress and not (group_of(i) is not None and group_of(i) == group_of(in_progress)) for i in settled):
         raise HarnessError(f"acknowledgement log has a gap: {sorted(settled)}")
     if rc == 0 and in_progress != len(records):
         raise HarnessError("child ended cleanly without settling every op")
@@ -619,6 +667,11 @@ SCRIPTS: list[tuple[str, dict]] = [
     ("credentials-through-manager", _script(tokens=[(0, -1, 12), (0, 0, 12), (1, -1, 12)], metas=[(0, 3), (1, 3), (2, 3)],
                                             ops=[("cred", 0, 1, 0, [0]), ("cred", 1, 0, 1, [0, 1]), ("cred", 2, 1, 2, []),
                                                  ("att", 0, 1)])),
+    # disclosures of another party's pseudonym through IdentityManager.substantiate (what a disclose message triggers):
+    # every inner insert that has returned is durable, also when the disclosure's tail is damaged and the call raises
+    ("disclosures-substantiated", _script(tokens=[(0, -1, 8)], metas=[(0, 2)],
+                                          ops=[("token", 0, 1), ("subst", [2, 30, 4], [[0], [0, 1], []], 0), ("meta", 0, 0),
+                                               ("subst", [5, 6], [[1], [0]], 1), ("att", 0, 0)])),
     ("redelivered-metadata", _script(tokens=[(0, -1, 8), (0, 0, 8)], metas=[(0, 2), (1, 2)],
                                      ops=[("token", 0, 1), ("meta", 0, 0), ("token", 1, 1), ("meta", 0, 0),
                                           ("meta", 1, 0), ("att", 0, 0)])),
